@@ -50,6 +50,7 @@ type source struct {
 	sticky    bool // a source that broke stays broken: every later Read and the Close of its handles fail too
 	fired     bool
 	gating    bool
+	postGate  bool // with gating: every Read parks a second time after it has filled the caller's buffer
 	arrivals  chan chan struct{} // each gated Read sends its release channel
 	inFlight  int
 	maxFlight int
@@ -107,7 +108,14 @@ func (f *srcFile) Read(p []byte) (int, error) {
 	if fail {
 		return 0, errSource
 	}
-	return f.File.Read(p)
+	n, err := f.File.Read(p)
+	if gating && s.postGate {
+		// park once more with the bytes in the caller's buffer, before the caller does anything with them
+		rel := make(chan struct{})
+		s.arrivals <- rel
+		<-rel
+	}
+	return n, err
 }
 
 func (f *srcFile) Close() error {
@@ -418,7 +426,161 @@ func TestConcurrent(t *testing.T) {
 	})
 }
 
+// ------------------------------------------------------------------ two different files filled at the same time
+
+// TwoCase: two goroutines open two DIFFERENT uncached files at the same time (the path lock is per name, so both copies run);
+// every source Read parks before it reads and again after it has filled the copy's buffer, and the harness releases the parked
+// reads one at a time in a drawn order, so a read of one copy can land between the other copy's read and its write to the
+// store. Oracle: each open serves its own file's complete bytes, so do later opens, and the store's copies equal the source.
+type TwoCase struct {
+	SizeF  int   `json:"size_f"`
+	SizeG  int   `json:"size_g"`
+	NoSeek bool  `json:"noseek"`
+	Order  []int `json:"order"`
+}
+
+func contentG(size int) []byte {
+	b := make([]byte, size)
+	for i := range b {
+		b[i] = byte('a' + (i*7+i/512)%26)
+	}
+	return b
+}
+
+func checkTwoFiles(c TwoCase) (string, string) {
+	base := "C11 twofiles"
+	e := newEnv(Case{Size: c.SizeF, Name: "f", Store: "rw", NoSeek: c.NoSeek})
+	wantG := contentG(c.SizeG)
+	must(hackpadfs.WriteFullFile(e.src.inner.(hackpadfs.FS), "g", wantG, 0o644))
+	want := map[string][]byte{"f": e.want, "g": wantG}
+	e.src.gating, e.src.postGate = true, true
+	type result struct {
+		name string
+		data []byte
+		err  error
+		rerr error
+	}
+	names := []string{"f", "g"}
+	results := make([]result, len(names))
+	finished := make(chan int, len(names))
+	for i, name := range names {
+		i, name := i, name
+		go func() {
+			defer func() { finished <- i }()
+			f, err := e.cfs.Open(name)
+			results[i] = result{name: name, err: err}
+			if err == nil {
+				results[i].data, results[i].rerr = io.ReadAll(f)
+				_ = f.Close()
+			}
+		}()
+	}
+	running, step := len(names), 0
+	var parked []chan struct{}
+	deadline := time.After(vf.WatchdogDur())
+	for running > 0 || len(parked) > 0 {
+		if running == 0 {
+			k := 0
+			if step < len(c.Order) {
+				k = c.Order[step] % len(parked)
+			}
+			step++
+			close(parked[k])
+			parked = append(parked[:k], parked[k+1:]...)
+			running++
+			continue
+		}
+		select {
+		case rel := <-e.src.arrivals:
+			parked = append(parked, rel)
+			running--
+		case <-finished:
+			running--
+		case <-deadline:
+			for _, r := range parked {
+				close(r)
+			}
+			go func() {
+				for r := range e.src.arrivals {
+					close(r)
+				}
+			}()
+			return base + ":hang", "two opens of different files did not return"
+		}
+	}
+	for _, r := range results {
+		if r.err != nil || r.rerr != nil {
+			return base + ":open-failed", fmt.Sprintf("open of %s while %s was being filled too: %v %v (no fault was injected)", r.name, names[1-indexOf(names, r.name)], r.err, r.rerr)
+		}
+		if !bytes.Equal(r.data, want[r.name]) {
+			return base + ":wrong-bytes-served", fmt.Sprintf("first open of %s (%d bytes) while the other file was being filled too served %d bytes, first difference at %d", r.name, len(want[r.name]), len(r.data), firstDiff(r.data, want[r.name]))
+		}
+	}
+	e.src.gating = false
+	for _, name := range names {
+		got, err := e.openAndRead(name)
+		if err != nil || !bytes.Equal(got, want[name]) {
+			return base + ":wrong-bytes-served-later", fmt.Sprintf("after both files were filled at the same time a later open of %s (%d bytes) served %d bytes, first difference at %d, err %v", name, len(want[name]), len(got), firstDiff(got, want[name]), err)
+		}
+		if b, err := hackpadfs.ReadFile(e.store, name); err == nil && !bytes.Equal(b, want[name]) {
+			return base + ":store-copy-differs", fmt.Sprintf("the cache store's copy of %s differs from the source (first difference at %d of %d)", name, firstDiff(b, want[name]), len(want[name]))
+		}
+	}
+	return "", ""
+}
+
+func indexOf(list []string, s string) int {
+	for i, x := range list {
+		if x == s {
+			return i
+		}
+	}
+	return 0
+}
+
+func firstDiff(a, b []byte) int {
+	for i := 0; i < len(a) && i < len(b); i++ {
+		if a[i] != b[i] {
+			return i
+		}
+	}
+	if len(a) != len(b) {
+		if len(a) < len(b) {
+			return len(a)
+		}
+		return len(b)
+	}
+	return -1
+}
+
+func TestTwoFiles(t *testing.T) {
+	vf.Check(t, "twofiles", func(rt *rapid.T, rec *vf.Rec) {
+		sizes := []int{1, 100, 512, 513, 1024, 1600}
+		c := TwoCase{SizeF: rapid.SampledFrom(sizes).Draw(rt, "sizef"), SizeG: rapid.SampledFrom(sizes).Draw(rt, "sizeg"),
+			NoSeek: rapid.Bool().Draw(rt, "noseek"), Order: rapid.SliceOfN(rapid.IntRange(0, 1), 0, 24).Draw(rt, "order")}
+		rec.Step(c)
+		rec.NonTrivial()
+		if sig, msg := checkTwoFiles(c); sig != "" {
+			rec.Failf(rt, sig, "%s", msg)
+		}
+	})
+}
+
 func TestReplayAll(t *testing.T) {
+	t.Run("twofiles", func(t *testing.T) {
+		vf.Replay(t, "twofiles", func(steps []json.RawMessage) (string, string) {
+			for _, raw := range steps {
+				var c TwoCase
+				if err := json.Unmarshal(raw, &c); err != nil {
+					return "bad-replay", err.Error()
+				}
+				if sig, msg := checkTwoFiles(c); sig != "" {
+					return sig, msg
+				}
+			}
+			return "", ""
+		})
+	})
 	t.Run("faults", func(t *testing.T) {
 		vf.Replay(t, "faults", func(steps []json.RawMessage) (string, string) {
 			for _, raw := range steps {
